@@ -3,18 +3,22 @@
      .            skip
      t<n>         observable statement n
      ; P Q        P; Q
-     !<k>,<m>     throw(K_k, "m%d", m)
-     T<digits> B H   try { B } catch (e in K_d1, K_d2, ..) { H }   (no digits = catch everything)
+     !<o>,<m>     throw(X_o, "m%i", m), or throw(X_o, "") when m = 0; object o = 10*kind + variant:
+                  objects of one kind are distinct but `eq` to each other
+     T<o>.<o>.. B H   try { B } catch (e in X_o1, X_o2, ..) { H }   (T alone = catch everything)
+     a first token @T / @I / @S (how the harness realises the objects: Type objects of equal name,
+     heap Ints, heap Strings) is skipped
      C P          call of a function whose body is P
    argv[1] = spec | model1 (exception_catch clears `active`: the repaired code) | model0 (pinned code);
    one output line per case:
      <event> <event> ... <final>
-     event:  t<n>@<d>  |  h<k>,<m>@<d>
-     final:  N@<d> (normal, depth at the end)  |  D<k>,<m> (died: Uncaught K_k with message m)
+     event:  t<n>@<d>  |  h<o>,<m>@<d>     (o = identity of the object bound in the handler)
+     final:  N@<d> (normal, depth at the end)  |  D<k>,<m> (died: Uncaught object of KIND k, message m;
+             the diagnostic shows the object's value, not its identity)
              | J<t> (model only: jump in flight to buffer t)  |  ABORT  |  WILD
      spec prints OUTOFSCOPE for trees nested deeper than EXCEPTION_MAX_DEPTH *)
 let parse (line : string) : prog =
-  let toks = ref (List.filter (fun s -> s <> "") (String.split_on_char ' ' line)) in
+  let toks = ref (List.filter (fun s -> s <> "" && s.[0] <> '@') (String.split_on_char ' ' line)) in
   let next () = match !toks with [] -> failwith "eof" | t :: r -> toks := r; t in
   let num s = nat_of_int (int_of_string s) in
   let rec go () =
@@ -26,7 +30,7 @@ let parse (line : string) : prog =
     | ';' -> let p = go () in let q = go () in PSeq (p, q)
     | '!' -> (match String.split_on_char ',' rest with
               | [k; m] -> PThrow (num k, num m) | _ -> failwith "bad throw")
-    | 'T' -> let fs = List.map (fun c -> nat_of_int (Char.code c - 48)) (List.of_seq (String.to_seq rest)) in
+    | 'T' -> let fs = List.map num (List.filter (fun s -> s <> "") (String.split_on_char '.' rest)) in
              let b = go () in let h = go () in PTry (b, fs, h)
     | 'C' -> PCall (go ())
     | _ -> failwith ("bad token " ^ t) in
@@ -47,10 +51,10 @@ let () =
       if mode = "spec" then begin
         if i (exn_nesting p) > i exn_max then print_endline "OUTOFSCOPE"
         else
-          let (evs, r) = exn_ref O p in
+          let ((evs, r), _) = exn_ref O O p in
           print_endline (line_of evs (match r with
             | RNormal -> "N@0"
-            | RRaised (k, m) -> Printf.sprintf "D%d,%d" (i k) (i m)))
+            | RRaised (k, m) -> Printf.sprintf "D%d,%d" (i (exn_kind_of k)) (i m)))
       end else begin
         let run = match mode with
           | "model0" -> exn_mach_clr false | "model1" -> exn_mach_clr true
@@ -59,7 +63,7 @@ let () =
         print_endline (line_of evs (match r with
           | MNormal -> Printf.sprintf "N@%d" (i (exn_depth st))
           | MJump t -> Printf.sprintf "J%d" (i t)
-          | MDied (Some k, m) -> Printf.sprintf "D%d,%d" (i k) (i m)
+          | MDied (Some k, m) -> Printf.sprintf "D%d,%d" (i (exn_kind_of k)) (i m)
           | MDied (None, m) -> Printf.sprintf "DNULL,%d" (i m)
           | MAbort -> "ABORT" | MWild -> "WILD"))
       end)
